@@ -210,6 +210,9 @@ func (a *Analysis) CheckC08(rep *Report) {
 
 // listAscending: every element the loop body touches is indexed by (loop variable + c) whose first value is 0.
 func listAscending(rep *Event) bool {
+	if rep.Kind == EvRep && rep.Bounded == "bulk" {
+		return true // encoding/binary writes a slice in index order
+	}
 	if rep.Kind != EvRep || (rep.Bounded != "range" && rep.Bounded != "counted") {
 		return false
 	}
@@ -286,6 +289,24 @@ func (a *Analysis) errorDiscipline(rep *Report, key string, fn *ssa.Function, pa
 			}
 		}
 		scan(p.Events, false)
+		// E3: the number of elements a decoder reads is exactly the count on the wire (never clamped or adjusted)
+		walkEvents(p.Events, func(x *Event, _ int) {
+			if x.Kind != EvRep || !hasEvent([]*Path{{Events: []*Event{x}}}, func(y *Event) bool { return isRead(y) || (y.Kind == EvObj && y.Dir == "Decode") }) {
+				return
+			}
+			if !x.Count.Contains(func(v *Val) bool { return v.Op == "wire" || v.Op == "bufbytes" || v.Op == "buflen" }) {
+				return
+			}
+			aff := affOf(x.Count)
+			exact := !aff.Top && aff.C == 0 && len(aff.Term) == 1
+			if exact {
+				for k, c := range aff.Term {
+					exact = c == 1 && aff.Sym[k].Op == "wire"
+				}
+			}
+			rep.Ob("E3-exact-count", key+":loop@"+siteKey(x), exact, a.P.Pos(x.Pos),
+				"the number of elements read is "+x.Count.Pretty()+", not exactly the count on the wire: a list cut short by truncation decodes as a shorter list instead of failing")
+		})
 		if swallowed != "" {
 			nFail++
 			rep.Ob("E1-failure-leaves-loop", key+":loop", false, a.P.Pos(fn.Pos()), "a failed read inside a loop does not leave the loop with an error: "+swallowed)
